@@ -373,6 +373,9 @@ def run(chk, repo):
     from rules.shared import memo_shared
     chk.clauses.append('C13.i no parsing / record function of seqvar or circ is memoised while returning a mutable container (parsed records must not share attribute dictionaries)')
     memo_shared(chk, repo, 'C13.i', ['seqvar', 'circ'], floor=0)
+    from rules.shared import kwname
+    chk.clauses.append('C13.kw (shared R-THREAD) parameters handed on as keyword arguments keep their name: no `a=b` between two parameters of one function')
+    kwname(chk, repo, 'C13.kw', ['seqvar', 'circ', 'cli.index_gvf'], floor=0)
 
 def byte_offsets(chk, repo, rid, qual):
     """Typestate on the line variable of a pointer generator: offsets are advanced by len() of the RAW
